@@ -1371,8 +1371,17 @@ fn main() {
     }
 
     // vacuity
-    let never_changed: Vec<String> =
-        changed.lock().unwrap().iter().filter(|(_, (n, c))| *n > 0 && *c == 0).map(|(l, _)| l.clone()).collect();
+    // per command kind (over all workspaces and dirty patterns): a kind that never changed any state is vacuous
+    let never_changed: Vec<String> = {
+        let ch = changed.lock().unwrap();
+        let mut per_cmd: BTreeMap<String, (u64, u64)> = BTreeMap::new();
+        for (k, v) in ch.iter() {
+            let e = per_cmd.entry(k.split('@').next().unwrap().to_string()).or_insert((0, 0));
+            e.0 += v.0;
+            e.1 += v.1;
+        }
+        per_cmd.iter().filter(|(_, (n, c))| *n > 0 && *c == 0).map(|(l, _)| l.clone()).collect()
+    };
     let ld = |c: &AtomicU64| c.load(Ordering::Relaxed);
     if !capped.load(Ordering::Relaxed) {
         if !never_changed.is_empty() {
@@ -1423,7 +1432,7 @@ fn main() {
     extra.insert("wall_cap_s".into(), json!(wall_cap));
     extra.insert("transitions_skipped_by_wall_cap".into(), json!(skipped.load(Ordering::Relaxed)));
     extra.insert("determinism_gate_histories_rebuilt_from_scratch".into(), json!(gate_checked));
-    extra.insert("actions_that_never_changed_the_state".into(), json!(never_changed));
+    extra.insert("command_kinds_that_never_changed_the_state".into(), json!(never_changed));
     let cov = Coverage {
         evaluations: st.transitions,
         distinct_nontrivial: ld(&stats.restored_view_differs_from_current),
